@@ -123,7 +123,7 @@ def cases(tier):
         for style in ("header", "ansi"):
             srcs.append(("base", list(order), style))
     for c in c06.cases(tier):
-        if c[0] == "expr" and (tier == "thorough" or c[2] == 2):
+        if c[0] == "expr" and len(c) == 6 and (tier == "thorough" or c[2] == 2):
             srcs.append(("expr", c[1], c[2], c[3], c[4]))
     for src in srcs:
         for tr in TRANSFORMS:
@@ -134,8 +134,12 @@ def cases(tier):
                     if src[0] == "expr" and (not wb or dp) and tier != "thorough":
                         continue
                     out.append(("text", src, tr, wb, dp, "asc"))
+    d = os.path.join(core.REPO, "example_netlists", "verilog_netlists")
     for f in bundled_files(tier):
+        big = os.path.getsize(os.path.join(d, f)) > 20000  # uniquify alone takes a minute on the biggest ones
         for tr in TRANSFORMS:
+            if big and tr in ("uniquify", "flatten"):
+                continue
             out.append(("bundled", f, tr, True, False, "asc"))
         out.append(("bundled", f, "identity", False, True, "asc"))
     return out
